@@ -224,6 +224,25 @@ def props_accepts(props, key):
     return key in props
 
 
+def call1(f, x):
+    return f(x)
+
+
+def format_reg_wf():
+    from statham.schema.validation.format import format_checker
+    return dict_wf(format_checker._callable_register) and isinstance(format_checker.__name__, str)
+
+
+def format_ok(name, value):
+    from statham.schema.validation.format import format_checker
+    reg = format_checker._callable_register
+    return bool(reg[name](value)) if name in reg else True
+
+
+def forall_keys_unchanged(a, b, k):
+    return all(b.get(q, None) is a.get(q, None) for q in set(a) | set(b) if q != k)
+
+
 def rbd(x):
     from statham.schema.validation import base
     if x is True:
